@@ -367,6 +367,40 @@ func ruleErrMask(c *Ctx) {
 	okStore := asmAllPathsPass(f5, func(in AsmInstr) bool {
 		return in.Op == "KMOVQ" && len(in.Args) == 2 && strings.TrimSpace(in.Args[0]) == kerr && strings.HasPrefix(strings.TrimSpace(in.Args[1]), "(")
 	})
+	// … through the caller's pointer: the base register of every such store was loaded from the error_mask parameter
+	// after the last call before it
+	for i, in := range f5.Instrs {
+		if !(in.Op == "KMOVQ" && len(in.Args) == 2 && strings.TrimSpace(in.Args[0]) == kerr && strings.HasPrefix(strings.TrimSpace(in.Args[1]), "(")) {
+			continue
+		}
+		rs := regsIn(in.Args[1])
+		okBase := false
+		if len(rs) == 1 {
+			for j := i - 1; j >= 0; j-- {
+				pj := f5.Instrs[j]
+				if pj.Label != "" {
+					continue
+				}
+				if pj.Op == "CALL" {
+					break
+				}
+				_, ws := asmRW(pj)
+				def := false
+				for _, w := range ws {
+					if w == rs[0] {
+						def = true
+					}
+				}
+				if def {
+					okBase = pj.Op == "MOVQ" && len(pj.Args) == 2 && strings.HasPrefix(strings.TrimSpace(pj.Args[0]), "error_mask+")
+					break
+				}
+			}
+		}
+		if !okBase {
+			okStore = false
+		}
+	}
 	c.Check(okStore, "avx512:errmask:store", f5.File, "the mask register is written back to *error_mask on every path to RET", "some exit of the AVX-512 driver returns without writing the error mask back (e.g. the early return when the index buffer is full): errors found in that call are lost", "a control byte inside a string in a chunk that fills an index buffer")
 	// the per-block routine ORs into the mask
 	q5 := a.Funcs["__find_quote_mask_and_bits_avx512"]
